@@ -31,7 +31,8 @@ Fuel == J.fuel
 MaxLevel == J.maxlevel
 
 Init == /\ tid \in 1..Len(Cases) /\ verdict = ""
-        /\ a = NewMachine /\ b = NewMachine /\ env = <<>> /\ pend = NoEff /\ n = 0
+        /\ a = NewMachineN(IF "nrega" \in DOMAIN Cases[tid] THEN Cases[tid].nrega ELSE 17)
+        /\ b = NewMachine /\ env = <<>> /\ pend = NoEff /\ n = 0
         /\ da = FALSE /\ db = FALSE /\ ck = <<>> /\ ckn = 0 /\ ckp = 1
 
 QuietA == a.st # "run" \/ da
